@@ -79,7 +79,7 @@ def rand_width(rng):
 def rand_amount(rng, w):
     """shift amount / exponent value"""
     r = rng.random()
-    cands = [0, 1, max(w - 1, 0), w, w + 1, 63, 64, 65, 2 ** 32, 2 ** 64 - 1, 2 ** 63]
+    cands = [0, 1, max(w - 1, 0), w, w + 1, 63, 64, 65, 2 ** 32, 2 ** 64 - 1, 2 ** 63, 2 ** 64, 2 ** 64 + 1]
     if r < 0.6:
         a = rng.choice(cands)
     else:
@@ -192,4 +192,52 @@ def random_cases(rng, n):
         else:
             W = rng.choice([1, 1, 1, 2, 32, 64, 65])
         out.append(binary_case(op, x, y, W))
+    return out
+
+
+def parse_wire(line):
+    """inverse of case_wire (decimal numbers)"""
+    t = line.split()
+
+    def v(i):
+        return (t[i], int(t[i + 1]), int(t[i + 2]), int(t[i + 3]), int(t[i + 4]))
+    if t[0] == "U":
+        return ("U", t[1], int(t[2]), int(t[3]), v(4))
+    return ("B", t[1], int(t[2]), int(t[3]), v(4), v(9))
+
+
+def as_big(v):
+    return ("B",) + tuple(v[1:])
+
+
+def both_reps(rng, n):
+    """pairs (case with U64 operands, the same case with the operands held as BigUint): operand
+    width = context width <= 64 so that neither representation is converted on the way in.  The
+    second case of a pair carries the marker "pairB" at index 6."""
+    out = []
+    for _ in range(n // 2):
+        w = rng.choice([1, 2, 3, 7, 8, 31, 32, 33, 63, 64, rng.randint(1, 64)])
+        if rng.random() < 0.25:
+            op = rng.choice(UNARY)
+            x = rand_value(rng, w)
+            W = w if op in ("Add", "Sub", "BitNot") else rng.choice([1, 1, 8, 64])
+            out.append(("U", op, W, x[4], x))
+            out.append(("U", op, W, x[4], as_big(x), None, "pairB"))
+            continue
+        op = rng.choice(BINARY)
+        x = rand_value(rng, w)
+        if op in SH2:
+            a, wy = rand_amount(rng, w)
+            y = val(a, 0, wy, rng.random() < 0.3)
+            c = binary_case(op, x, y, w)
+            out.append(c)
+            out.append(c[:4] + (as_big(x), y, "pairB"))
+            continue
+        y = rand_value(rng, w, signed=(bool(x[4]) if rng.random() < 0.6 else None))
+        if op in ("Div", "Rem") and rng.random() < 0.3:
+            y = val(rng.choice([0, 1, (1 << w) - 1]), 0, w, y[4])
+        W = w if op in CTX2 else rng.choice([1, 1, 8, 64])
+        c = binary_case(op, x, y, W)
+        out.append(c)
+        out.append(c[:4] + (as_big(x), as_big(y), "pairB"))
     return out
